@@ -2,5 +2,5 @@
 (* Environment choices of every Handshake behaviour: printed once per ServerAnswers step. *)
 EXTENDS MC_Handshake, Json
 Emit == (phase = "waiting" /\ phase' = "answered") =>
-          PrintT(<<"PATH", ToJson([sup |-> sup, pref |-> pref, tracked |-> tracked, a |-> answer'])>>)
+          PrintT(<<"PATH", ToJson([sup |-> sup, pref |-> pref, tracked |-> tracked, broken |-> wireBroken, a |-> answer'])>>)
 ====
